@@ -20,10 +20,10 @@ def run(ctx):
         open(cases, "w").write(ctx.replay["case_record"]["line"] + "\n")
     else:
         cfg = "Range_quick.cfg" if ctx.tier == "quick" else "Range_thorough.cfg"
-        ctx.tlc("sem", "Range", cfg, cases_path=cases, timeout_s=600,
+        ctx.tlc("sem", "Range", cfg, cases_path=cases, timeout_s=1800,
                 workers=min(8, int(os.environ.get("VERIF_TLC_WORKERS") or 8)))
     h = ctx.build_harness("semh")
-    res = ctx.run_harness(h, ["range"], cases, timeout_s=1500)
+    res = ctx.run_harness(h, ["range"], cases, timeout_s=7000)
     ctx.tally(res, cases_path=cases)
     ctx.programs = int(ctx.extra.get("programs", 0)) + int(ctx.extra.get("go_expansion_programs", 0))
     ctx.disagreements_checked = int(ctx.extra.get("compared_with_model", 0))
